@@ -64,6 +64,18 @@ type schedCase struct {
 	Yes      bool    `json:"yes,omitempty"`
 	Jitter   int64   `json:"jitter"`
 	Seed     int64   `json:"seed"`
+	// Barrier > 0: every shell command writes to a stdout that blocks until Barrier activations have
+	// entered (work-conservation probe: dependencies must all be started although only `cap` can run)
+	Barrier int `json:"barrier,omitempty"`
+}
+
+type gateWriter struct {
+	opened chan struct{}
+}
+
+func (g *gateWriter) Write(p []byte) (int, error) {
+	<-g.opened
+	return len(p), nil
 }
 
 func tname(i int) string { return fmt.Sprintf("t%d", i) }
@@ -126,7 +138,11 @@ func renderSched(d schedCase) string {
 				case c.Deferred:
 					fmt.Fprintf(&b, "      - defer: ': \"EC=[{{.EXIT_CODE}}]\"; exit %d'\n", c.Code)
 				default:
-					fmt.Fprintf(&b, "      - cmd: ': \"V={{.V}}\"; exit %d'\n", c.Code)
+					if d.Barrier > 0 {
+						fmt.Fprintf(&b, "      - cmd: 'printf B; exit %d'\n", c.Code)
+					} else {
+						fmt.Fprintf(&b, "      - cmd: ': \"V={{.V}}\"; exit %d'\n", c.Code)
+					}
 					if c.IgnoreErr {
 						b.WriteString("        ignore_error: true\n")
 					}
@@ -191,6 +207,7 @@ type schedObs struct {
 	events []verifhook.Event
 	result string
 	hang   bool
+	stall  bool
 	setupErr string
 }
 
@@ -209,9 +226,15 @@ func runSchedImpl(d schedCase, dir string) schedObs {
 	if err := os.WriteFile(filepath.Join(dir, "Taskfile.yml"), []byte(renderSched(d)), 0o644); err != nil {
 		panic(err)
 	}
+	var stdout io.Writer = io.Discard
+	var gate *gateWriter
+	if d.Barrier > 0 {
+		gate = &gateWriter{opened: make(chan struct{})}
+		stdout = gate
+	}
 	e := task.NewExecutor(
 		task.WithDir(dir),
-		task.WithStdout(io.Discard), task.WithStderr(io.Discard), task.WithStdin(strings.NewReader("")),
+		task.WithStdout(stdout), task.WithStderr(io.Discard), task.WithStdin(strings.NewReader("")),
 		task.WithConcurrency(d.Cap), task.WithParallel(d.Parallel), task.WithForce(d.Force), task.WithForceAll(d.ForceAll),
 		task.WithAssumeYes(d.Yes), task.WithSilent(true),
 		task.WithTempDir(task.TempDir{Remote: filepath.Join(dir, ".task"), Fingerprint: filepath.Join(dir, ".task")}),
@@ -228,6 +251,26 @@ func runSchedImpl(d schedCase, dir string) schedObs {
 	ctx, cancel := context.WithCancel(context.Background())
 	go func() { done <- e.Run(ctx, calls...) }()
 	var o schedObs
+	if gate != nil {
+		deadline := time.Now().Add(3 * time.Second)
+		for {
+			n := 0
+			for _, ev := range verifhook.Events() {
+				if ev.Kind == "enter" {
+					n++
+				}
+			}
+			if n >= d.Barrier {
+				break
+			}
+			if time.Now().After(deadline) {
+				o.stall = true
+				break
+			}
+			time.Sleep(time.Millisecond)
+		}
+		close(gate.opened)
+	}
 	select {
 	case err := <-done:
 		o.result = resTok(verifhook.ErrClass(err))
@@ -336,6 +379,9 @@ func evalSched(d schedCase) (string, string, schedObs) {
 	line := "sched.run " + progTokens(d) + " " + tr + " R " + o.result
 	if o.hang {
 		return line, "hang", o
+	}
+	if o.stall {
+		return line, "stall: not every dependency was started while a concurrency slot was free or held by a blocked command", o
 	}
 	return line, schedAccept, o
 }
@@ -476,6 +522,31 @@ func (c *Ctx) genCycle(dedup bool) schedCase {
 	return d
 }
 
+// genBarrier: t0 has k deps, each with one command that blocks until all k+1 activations have
+// entered; the concurrency limit is smaller than k.
+func (c *Ctx) genBarrier() schedCase {
+	r := c.Rng
+	k := 3 + r.Intn(3)
+	d := schedCase{Cap: 1 + r.Intn(2), Jitter: []int64{0, 100}[r.Intn(2)], Seed: r.Int63(), Calls: []int{0}, Barrier: k + 1}
+	t0 := sTask{Run: "always", PlatformOk: true, RequiresOk: true, EnumOk: true, PrecondOk: true}
+	for i := 1; i <= k; i++ {
+		t0.Deps = append(t0.Deps, sDep{i, -1})
+	}
+	if r.Intn(2) == 0 {
+		t0.Cmds = []sCmd{{Call: -1, Var: -1}}
+	}
+	d.Tasks = append(d.Tasks, t0)
+	for i := 1; i <= k; i++ {
+		t := sTask{Run: "always", PlatformOk: true, RequiresOk: true, EnumOk: true, PrecondOk: true}
+		t.Cmds = []sCmd{{Call: -1, Var: -1}}
+		if r.Intn(3) == 0 {
+			t.Cmds = append(t.Cmds, sCmd{Call: -1, Var: -1})
+		}
+		d.Tasks = append(d.Tasks, t)
+	}
+	return d
+}
+
 func hasCycleThroughDedup(d schedCase) bool {
 	// is there a cycle in the call graph containing a once/when_changed task?
 	n := len(d.Tasks)
@@ -541,12 +612,15 @@ func runSched(c *Ctx) {
 		var d schedCase
 		if cyclic {
 			d = c.genCycle(false)
+		} else if i%25 == 7 {
+			d = c.genBarrier()
+			c.Hit("barrier")
 		} else {
 			d = c.genSched(c.Pick(7, 10), false)
 		}
 		for s := 0; s < sched && !(cyclic && s > 0); s++ {
 			d.Seed = c.Rng.Int63()
-			if s > 0 && !cyclic {
+			if s > 0 && !cyclic && d.Barrier == 0 {
 				d.Jitter = []int64{50, 300, 1000, 3000}[c.Rng.Intn(4)]
 			}
 			cl, il, o := evalSched(d)
